@@ -661,10 +661,15 @@ class Daemon(object):
         if not force:
             if hasattr(obj_or_class, "_pyroId") and obj_or_class._pyroId != "":  # check for empty string is needed for Cython
                 pyro_id = obj_or_class._pyroId
-                if pyro_id and self.objectsById.get(pyro_id) is obj_or_class:
+                if pyro_id and _deref_registration(self.objectsById.get(pyro_id)) is obj_or_class:
                     raise errors.DaemonError("object or class already has a Pyro id")
             if objectId in self.objectsById:
                 raise errors.DaemonError("an object or class is already registered with that id")
+        else:
+            # forced: whatever was registered under this id before is no longer a Pyro object
+            previous = _deref_registration(self.objectsById.get(objectId))
+            if previous is not None and previous is not obj_or_class:
+                _clear_pyro_attributes(previous, objectId)
         # set some pyro attributes
         obj_or_class._pyroId = objectId
         obj_or_class._pyroDaemon = self
@@ -676,9 +681,18 @@ class Daemon(object):
             else:
                 ser.register_type_replacement(type(obj_or_class), _pyro_obj_to_auto_proxy)
         # register the object/class in the mapping
-        self.objectsById[obj_or_class._pyroId] = obj_or_class if not weak else weakref.ref(obj_or_class)
-        if weak: weakref.finalize(obj_or_class,self.unregister,objectId)
+        if weak:
+            ref = weakref.ref(obj_or_class)
+            self.objectsById[objectId] = ref
+            weakref.finalize(obj_or_class, self._unregister_dead_weakref, objectId, ref)
+        else:
+            self.objectsById[objectId] = obj_or_class
         return self.uriFor(objectId)
+
+    def _unregister_dead_weakref(self, objectId, ref):
+        # only remove the registration that belonged to the collected object (the id may have been re-used since)
+        if self.objectsById.get(objectId) is ref:
+            del self.objectsById[objectId]
 
     def unregister(self, objectOrId):
         """
@@ -697,6 +711,9 @@ class Daemon(object):
         if objectId == core.DAEMON_NAME:
             return
         if objectId in self.objectsById:
+            if objectOrId is not None and not _is_registration_of(self.objectsById[objectId], objectOrId):
+                # the id this object remembers has been unregistered and re-used for something else since
+                raise errors.DaemonError("object isn't registered")
             del self.objectsById[objectId]
             if objectOrId is not None:
                 del objectOrId._pyroId
@@ -715,8 +732,10 @@ class Daemon(object):
         return an URI for the internal address.
         """
         if not isinstance(objectOrId, str):
-            objectOrId = getattr(objectOrId, "_pyroId", None)
-            if objectOrId is None or objectOrId not in self.objectsById:
+            obj = objectOrId
+            objectOrId = getattr(obj, "_pyroId", None)
+            if objectOrId is None or not _is_registration_of(self.objectsById.get(objectOrId), obj):
+                # (an object that was unregistered by its id still carries that id)
                 raise errors.DaemonError("object isn't registered in this daemon")
         if nat:
             loc = self.natLocationStr or self.locationStr
@@ -873,7 +892,9 @@ def _pyro_obj_to_auto_proxy(obj: Any) -> Any:
     daemon = getattr(obj, "_pyroDaemon", None)
     if daemon:
         # only return a proxy if the object is a registered pyro object
-        return daemon.proxyFor(obj)
+        # (an object that was unregistered by its id still refers to the daemon, but is an ordinary object again)
+        if _is_registration_of(daemon.objectsById.get(getattr(obj, "_pyroId", None)), obj):
+            return daemon.proxyFor(obj)
     return obj
 
 
@@ -956,6 +977,29 @@ def _get_exposed_members(obj: Any, only_exposed: bool = True) -> Dict[str, Set[s
     }
     __exposed_member_cache[cache_key] = result
     return result
+
+
+def _deref_registration(registered: Any) -> Any:
+    """the object behind an entry of the registry (None for a dead weak reference or no entry)"""
+    if isinstance(registered, weakref.ref):
+        return registered()
+    return registered
+
+
+def _is_registration_of(registered: Any, obj: Any) -> bool:
+    """does this registry entry stand for the given object (or, for a registered class, for this instance of it)"""
+    registered = _deref_registration(registered)
+    return registered is not None and (registered is obj or registered is type(obj))
+
+
+def _clear_pyro_attributes(obj: Any, objectId: str) -> None:
+    """remove the registration attributes from an object that is no longer registered under the given id"""
+    if getattr(obj, "_pyroId", None) == objectId:
+        for attr in ("_pyroId", "_pyroDaemon"):
+            try:
+                delattr(obj, attr)
+            except AttributeError:
+                pass
 
 
 def _unpack_weakref(obj: Any):
